@@ -75,6 +75,35 @@ def aliasing_probe():
     return bad
 
 
+def missing_field_probe():
+    """A test, not part of the model (whose keys are compared as strings): a name that is not a declared field is rejected
+    however close it is to one — a trailing / leading underscore, another case, a prefix, a plural — on an object, on an object
+    read from another object and on one read from an n-tuple."""
+    from nada_dsl import Party, Input, SecretInteger, PublicInteger, NTuple, Object
+    from ..real.env import reset_globals
+    reset_globals()
+    p = Party("P")
+    a, b = SecretInteger(Input("a", p)), PublicInteger(Input("b", p))
+    bad = []
+    fields = ["total", "rate", "in", "class", "x", "k_1"]
+    plain = Object.new({f: (a if i % 2 else b) for i, f in enumerate(fields)})
+    views = {"o": plain, "Object.new({'inner': o}).inner": Object.new({"inner": plain}).inner, "NTuple.new([o, a])[0]": NTuple.new([plain, a])[0]}
+    for vname, o in views.items():
+        for f in fields:
+            for near in (f + "_", "_" + f, f + "__", f.upper(), f.capitalize(), f[:-1], f + "s", f + " ", f.replace("_", "")):
+                if near in fields or not near:
+                    continue
+                try:
+                    getattr(o, near)
+                    bad.append(f"o = Object.new({{{', '.join(repr(x) for x in fields)}}}); getattr({vname}, {near!r}) was accepted although no field has that name")
+                except AttributeError:
+                    pass
+                except Exception as exc:  # pylint: disable=broad-except
+                    bad.append(f"getattr({vname}, {near!r}) raised {type(exc).__name__} instead of rejecting the name")
+    reset_globals()
+    return bad
+
+
 def index_probe():
     """A test, not part of the model (whose indices are integers): whatever Python accepts as a sequence index is recorded
     as an integer position inside 0..n-1 (`t[True]` is position 1), anything else is rejected."""
@@ -129,6 +158,8 @@ def index_probe():
 def run(res, tier):
     for text in aliasing_probe():
         res.violation({"property": "C12", "kind": "aliasing", "text": text}, "aliasing: " + text)
+    for text in missing_field_probe()[:3]:
+        res.violation({"property": "C12", "kind": "missing-field", "text": text}, "field: " + text)
     for text in index_probe():
         res.violation({"property": "C12", "kind": "index-kind", "text": text}, "index: " + text)
     gc.run_graph(res, tier, "C12", oracle, project, classify)
@@ -138,6 +169,12 @@ def replay(obj):
     if obj.get("kind") == "aliasing":
         bad = aliasing_probe()
         print(bad or "ok")
+        if bad:
+            print("VIOLATION property=C12 replay=(replayed)")
+        return 1 if bad else 0
+    if obj.get("kind") == "missing-field":
+        bad = missing_field_probe()
+        print(bad[:3] or "ok")
         if bad:
             print("VIOLATION property=C12 replay=(replayed)")
         return 1 if bad else 0
